@@ -10,7 +10,7 @@ Result in one paragraph.  The equality holds whenever the index trajectories of 
 configuration flag.  WITHOUT any guard the requested statement is FALSE (`dynamical_coring_api_refines_false`): for a label as
 small as `-2^31` the `int32` cast inside `shift_data` makes the constructor model produce NEGATIVE indices; the translated
 `states[cored_traj]` then follows Python's index rules (wrap once, else `IndexError`) whereas the model's `labelOf` reads
-position 0.  Upper bounds never fail: indices are always `< number of states` (`CoringApiLemmas.idx_lt_of_mk'`), and the
+position 0.  Upper bounds never fail: indices are always `< number of states` (`idx_lt_of_mk'` in `CoringApiLemmas.lean`), and the
 constructor model never raises (`constructor_total`).
 -/
 import MsmVerif.Refine.CoringApiLemmas
